@@ -118,7 +118,7 @@ def gen_case(rng, tier):
     for _ in range(n):
         ops.append({'sel': rng.random(), 'kind': rng.choice(['dict', 'list', 'list']), 'dop': rng.choice(DICT_OPS), 'lop': rng.choice(LIST_OPS),
                     'kmode': rng.choice(['existing', 'existing', 'new', 'missing']), 'imode2': rng.choice(['in', 'end', 'oob', 'neg']), 'imode': rng.choice(['in', 'in', 'neg', 'end', 'oob', 'negoob', 'bad']),
-                    'r': rng.random(), 'r2': rng.random(), 'value': rand_value(rng), 'wrap': rng.random() < 0.3,
+                    'r': rng.random(), 'r2': rng.random(), 'value': rand_value(rng), 'wrap': rng.random() < 0.3, 'refuse': rng.random() < 0.08,
                     'values': [rand_value(rng, 1) for _ in range(rng.randrange(0, 4))]})
     return {'tree': tree, 'via': rng.choice(['api', 'api', 'yaml']), 'ops': ops}
 
@@ -327,6 +327,13 @@ class Hang(Exception):
     pass
 
 
+def _not_a_config_value():
+    """a plain function: the node layer cannot wrap it (nodes subclass the type of their value) and refuses it"""
+
+
+REFUSABLE = ('setitem', 'setattr', 'set_child', 'append', 'insert')
+
+
 def _bounded(fn, seconds):
     """run fn under a short interval timer of its own: an operation that does not come back is a finding, not a case time-out"""
     import signal
@@ -412,6 +419,13 @@ def run(case):
             exp = ('err', e)
             # builtins may have partially applied nothing; restore to be safe
             ref = before
+        if op.get('refuse') and name in REFUSABLE and exp[0] == 'ok':
+            # the same (valid) operation, but with a value the node layer refuses: it has to fail as a whole, nothing may have moved
+            ref = before
+            exp = ('refuse', None)
+            rval = _not_a_config_value
+            history[-1] = (list(path), kind, name, key, '<a function object>')
+            feats.append(f'refused_value:{kind}.{name}')
         # real
         try:
             got = ('ok', apply_real(kind, name, node, key, rval, vals, op))
@@ -422,11 +436,20 @@ def run(case):
             break
         did_list |= kind == 'list' and got[0] == 'ok'
         did_dict |= kind == 'dict' and got[0] == 'ok'
-        where = f'step {step}: {kind}.{name}(key={key!r}, value={val!r}) on the container at {list(path)!r}'
+        where = f'step {step}: {kind}.{name}(key={key!r}, value={history[-1][4]!r}) on the container at {list(path)!r}'
         probs = monitors.treesan(root)
         if probs:
             vio.append({'mech': 'views-disagree:' + f'{kind}.{name}', 'what': f'{where}: {probs[0]}; history={history!r}; start={case["tree"]!r}'})
             break
+        if exp[0] == 'refuse':
+            if got[0] == 'ok':
+                feats.append('refused_value_accepted')          # (a library that can hold such values: nothing to compare the rest of the history with)
+                break
+            now = native(root)
+            if util.typed(now, ordered_maps=True) != util.typed(ref, ordered_maps=True):
+                vio.append({'mech': 'failed-operation-changed-tree:' + f'{kind}.{name}', 'what': f'{where}: the node refused the value ({type(got[1]).__name__}) but the tree is now {now!r}, before it was {ref!r}; history={history!r}; start={case["tree"]!r}'})
+                break
+            continue
         if exp[0] == 'resync':
             resync += 1
             feats.append('resync')
